@@ -20,6 +20,7 @@ const (
 	evChoice evKind = iota
 	evForced
 	evAssume
+	evAssert // dir = the assertion was (possibly) violated and cond was assumed afterwards
 )
 
 type event struct {
@@ -92,6 +93,7 @@ type Exec struct {
 	baseLevel int
 	stack     []pending
 	facts     map[int32]bool // conditions already decided on this path (by term id)
+	known     map[int32]uint64 // terms concretised on this path
 	pc        []*Term        // asserted conditions of the current path
 
 	stats      Stats
@@ -302,15 +304,63 @@ func (ex *Exec) Assume(cond *Term) {
 
 // Assert checks cond for every value on this path.
 func (ex *Exec) Assert(cond *Term, label string) {
-	ex.stats.AssertLabels[label]++
 	if cond.IsConst() && cond.k != 0 {
-		ex.stats.AssertTrivial++
+		if ex.pos >= ex.replayN {
+			ex.stats.AssertLabels[label]++
+			ex.stats.AssertTrivial++
+		}
 		return
+	}
+	if ex.pos < ex.replayN {
+		ev := ex.events[ex.pos]
+		ex.pos++
+		if ev.kind != evAssert {
+			panic(fmt.Sprintf("replay divergence: expected kind %d at %d, got assert %s", ev.kind, ex.pos-1, label))
+		}
+		if ev.dir {
+			if cond.IsConst() {
+				ex.endPath("assume-false", "")
+			}
+			ex.pc = append(ex.pc, cond)
+			ex.facts[cond.id] = true
+		}
+		return
+	}
+	ex.stats.AssertLabels[label]++
+	record := func(assumed bool) {
+		ex.events = append(ex.events, event{evAssert, assumed, 0})
+		ex.evLevel = append(ex.evLevel, ex.solver.level)
+		ex.pos++
+	}
+	assume := func() {
+		// continue under the assumption that cond held, so later assertions are still examined
+		if cond.IsConst() {
+			record(true)
+			ex.endPath("assume-false", "")
+		}
+		ex.pc = append(ex.pc, cond)
+		ex.facts[cond.id] = true
+		ex.solver.Push()
+		ex.solver.Assert(cond)
+		record(true)
+		if ex.model != nil && Eval(cond, ex.model) != 0 {
+			return
+		}
+		r, m := ex.solver.Check()
+		ex.count(r)
+		switch r {
+		case Sat:
+			ex.model = m
+		case Unsat:
+			ex.endPath("assume-infeasible", "")
+		default:
+			ex.model = nil
+		}
 	}
 	neg := ex.ts.BNot(cond)
 	extras := ex.excludeTerms(label)
 	var witness Model
-	if ex.model != nil && !cond.IsConst() && Eval(cond, ex.model) == 0 && ex.allHold(extras, ex.model) {
+	if ex.model != nil && Eval(cond, ex.model) == 0 && ex.allHold(extras, ex.model) {
 		witness = ex.model
 		ex.stats.AssertSatModel++
 	} else {
@@ -320,8 +370,10 @@ func (ex *Exec) Assert(cond *Term, label string) {
 		case Unsat:
 			ex.stats.AssertUnsat++
 			if len(extras) > 0 {
-				// the only violations are known ones: keep going under the assumption
-				ex.Assume(cond)
+				// the only violations are listed ones: keep going under the assumption
+				assume()
+			} else {
+				record(false)
 			}
 			return
 		case Sat:
@@ -330,7 +382,7 @@ func (ex *Exec) Assert(cond *Term, label string) {
 		default:
 			ex.stats.Unknown++
 			ex.note("assert-unknown:" + label)
-			ex.Assume(cond)
+			assume()
 			return
 		}
 	}
@@ -339,8 +391,7 @@ func (ex *Exec) Assert(cond *Term, label string) {
 		ex.violations = append(ex.violations, Violation{Label: label, Model: ex.modelNamed(witness), PathNo: ex.pathNo,
 			Detail: strings.Join(ex.observed, " | ")})
 	}
-	// continue under the assumption that it held, so later assertions are still examined
-	ex.Assume(cond)
+	assume()
 }
 
 func (ex *Exec) allHold(ts []*Term, m Model) bool {
@@ -354,10 +405,13 @@ func (ex *Exec) allHold(ts []*Term, m Model) bool {
 
 // Concretize forks over the feasible values of t.
 func (ex *Exec) Concretize(t *Term, what string) uint64 {
+	if t.IsConst() {
+		return t.k
+	}
+	if v, ok := ex.known[t.id]; ok {
+		return v
+	}
 	for i := 0; ; i++ {
-		if t.IsConst() {
-			return t.k
-		}
 		if i > 4096 {
 			ex.endPath("unsupported", "concretisation of "+what+" exceeds 4096 values")
 		}
@@ -369,6 +423,7 @@ func (ex *Exec) Concretize(t *Term, what string) uint64 {
 			v = Eval(t, ex.model)
 		}
 		if ex.branchV(ex.ts.Eq(t, Const(int(t.w), v)), v) {
+			ex.known[t.id] = v
 			return v
 		}
 	}
@@ -433,6 +488,7 @@ func (ex *Exec) runPath(p pending, run func()) {
 	ex.model = p.model
 	ex.observed = ex.observed[:0]
 	ex.facts = map[int32]bool{}
+	ex.known = map[int32]uint64{}
 	ex.pc = ex.pc[:0]
 	ex.fuel = ex.maxFuel
 	ex.depth = 0
